@@ -119,9 +119,12 @@ def generate():
     need(errh, r"if !scmp_pkg\.scmp\(\)\.message\(\)\.is_error\(\) \{[^}]*return None;\s*\}", "ScmpErrorHandler: non-errors ignored", err_rel)
     need(errh, r"receiver\.report_scmp_error\(scmp_error\.clone\(\), path\);\s*\}\);\s*None\s*\}", "ScmpErrorHandler: reports and returns None", err_rel)
 
-    # pocketscion: no reply to SCMP errors
-    need(sim, r"ClassifiedPacketView::Scmp\(scmp_view\) if [^=]*=> \{\s*// Don't reply to SCMP Error Messages\s*return Ok\(None\);",
-         "pocketscion maybe_create_scmp_reply: no reply to SCMP errors", sim_rel, re.S)
+    # pocketscion: no reply to SCMP errors (known kinds through is_error, every other type below the
+    # threshold through the raw type number)
+    m = need(sim, r"ClassifiedPacketView::Scmp\(scmp_view\)\s*if scmp_view\.scmp\(\)\.message\(\)\.is_error\(\)\s*"
+                  r"\|\| u8::from\(scmp_view\.scmp\(\)\.message_type\(\)\) < (\d+) =>\s*\{\s*// Don't reply to SCMP Error Messages\s*return Ok\(None\);",
+             "pocketscion maybe_create_scmp_reply: no reply to SCMP errors (is_error || type < N)", sim_rel)
+    sim_thr = int(m.group(1)) if m else 0
 
     body = f"""From Coq Require Import NArith List.
 Import ListNotations.
@@ -135,6 +138,8 @@ Definition scmp_error_kinds : list (N * N) := [{"; ".join(f"({t}, {h})" for t, h
 Definition scmp_is_error_types : list N := [{"; ".join(str(x) for x in is_err)}].
 (* message kinds DefaultEchoHandler::try_echo_reply answers (every other arm: Ok(None)) *)
 Definition echo_answered_types : list N := [{"; ".join(str(x) for x in answered)}].
+(* pocketscion maybe_create_scmp_reply: no reply to a packet whose SCMP type is below this *)
+Definition SIM_ERROR_TYPE_BOUND : N := {sim_thr}.
 Definition T_ECHO_REQUEST : N := {types['EchoRequest']}.
 Definition T_ECHO_REPLY : N := {types['EchoReply']}.
 Definition T_TRACEROUTE_REQUEST : N := {types['TracerouteRequest']}.
